@@ -232,6 +232,7 @@ impl Reporter {
             return;
         }
         self.nviol.fetch_add(1, Ordering::Relaxed);
+        UNKNOWN_VIOLATIONS.fetch_add(1, Ordering::Relaxed);
         if let Some(e) = g.unknown.get_mut(key) {
             e.0 += 1;
             if weight < e.1 {
@@ -400,6 +401,19 @@ pub fn conclude(ev: &Evidence, rep: &Reporter) -> i32 {
         if code == 0 { "OK" } else { "VIOLATION" }
     );
     code
+}
+
+static UNKNOWN_VIOLATIONS: AtomicU64 = AtomicU64::new(0);
+
+/// A vacuity guard (a coverage class that must not be empty). It is a machinery error only when
+/// the run found no violation: a broken tree may legitimately cut the exploration short, and
+/// then the violation is the verdict.
+pub fn vacuous(msg: &str) {
+    if UNKNOWN_VIOLATIONS.load(Ordering::Relaxed) > 0 {
+        println!("note: coverage guard not enforced because violations were found ({})", msg);
+    } else {
+        machinery_error(msg)
+    }
 }
 
 pub fn machinery_error(msg: &str) -> ! {
